@@ -70,7 +70,7 @@ export VERIF_NODE="$ROOT/.bin/verif-node" VERIF_GOFAIL="$ROOT/.bin/gofail" VERIF
 if [ "$MODE" = thorough ]; then WD="${VERIF_WATCHDOG:-7200}"; GT=7000s; else WD="${VERIF_WATCHDOG:-900}"; GT=850s; fi
 
 export GORACE="halt_on_error=1 exitcode=66"
-rm -f "$ROOT/evidence/$ID.json"
+rm -f "$ROOT/evidence/$ID.json" "$ROOT/artifacts/$ID/$MODE-seed$VERIF_SEED-"*
 ( cd "$H/checks/$(lower "$ID")" && timeout -s QUIT "$WD" "$BIN" -test.v -test.timeout "$GT" -test.run "Test$ID\$" ) >"$LOG" 2>&1
 rc=$?
 
